@@ -1173,53 +1173,68 @@ func c12RunningMax(fn *ssa.Function, field string) string {
 		return fa.X
 	}
 	replaced := 0
-	for i, pr := range head.Preds {
-		cand := kept.Edges[i]
-		if cand == ssa.Value(kept) {
-			continue
-		}
-		if c, isC := cand.(*ssa.Const); isC && c.Value == nil {
-			continue
-		}
-		replaced++
-		accept := func(cs []an.DomCond) bool {
-			for _, dc := range cs {
-				x, y, rel, ok := dc.Cmp()
-				if !ok {
-					continue
-				}
-				if x == ssa.Value(kept) && rel == token.EQL {
-					if c, isC := y.(*ssa.Const); isC && c.Value == nil {
-						return true
-					}
-				}
-				kx, ky := keyOf(x), keyOf(y)
-				if kx == cand && ky == ssa.Value(kept) && (rel == token.GTR || rel == token.GEQ) {
-					return true
-				}
-				if kx == ssa.Value(kept) && ky == cand && (rel == token.LSS || rel == token.LEQ) {
+	accept := func(cand ssa.Value, cs []an.DomCond) bool {
+		for _, dc := range cs {
+			x, y, rel, ok := dc.Cmp()
+			if !ok {
+				continue
+			}
+			if x == ssa.Value(kept) && rel == token.EQL {
+				if c, isC := y.(*ssa.Const); isC && c.Value == nil {
 					return true
 				}
 			}
-			return false
-		}
-		var justified func(from, to *ssa.BasicBlock, d int) bool
-		justified = func(from, to *ssa.BasicBlock, d int) bool {
-			if accept(an.EdgeConds(from, to)) {
+			kx, ky := keyOf(x), keyOf(y)
+			if kx == cand && ky == ssa.Value(kept) && (rel == token.GTR || rel == token.GEQ) {
 				return true
 			}
-			if d > 4 || from == head || len(from.Preds) == 0 {
-				return false
+			if kx == ssa.Value(kept) && ky == cand && (rel == token.LSS || rel == token.LEQ) {
+				return true
 			}
-			for _, pp := range from.Preds {
-				if !justified(pp, from, d+1) {
-					return false
-				}
-			}
+		}
+		return false
+	}
+	var justified func(cand ssa.Value, from, to *ssa.BasicBlock, d int) bool
+	justified = func(cand ssa.Value, from, to *ssa.BasicBlock, d int) bool {
+		if accept(cand, an.EdgeConds(from, to)) {
 			return true
 		}
-		if !justified(pr, head, 0) {
+		if d > 4 || from == head || len(from.Preds) == 0 {
+			return false
+		}
+		for _, pp := range from.Preds {
+			if !justified(cand, pp, from, d+1) {
+				return false
+			}
+		}
+		return true
+	}
+	// the value that arrives at the head: the kept one, nil, a candidate, or a merge of these further down
+	var arrive func(v ssa.Value, from, to *ssa.BasicBlock, d int) string
+	arrive = func(v ssa.Value, from, to *ssa.BasicBlock, d int) string {
+		if v == ssa.Value(kept) {
+			return ""
+		}
+		if c, isC := v.(*ssa.Const); isC && c.Value == nil {
+			return ""
+		}
+		if ph, isPhi := v.(*ssa.Phi); isPhi && ph.Block() != head && d < 6 {
+			for k, e := range ph.Edges {
+				if why := arrive(e, ph.Block().Preds[k], ph.Block(), d+1); why != "" {
+					return why
+				}
+			}
+			return ""
+		}
+		replaced++
+		if !justified(v, from, to, 0) {
 			return "the kept parent is replaced on a path where the candidate's rank is not known to be greater"
+		}
+		return ""
+	}
+	for i, pr := range head.Preds {
+		if why := arrive(kept.Edges[i], pr, head, 0); why != "" {
+			return why
 		}
 	}
 	if replaced == 0 {
